@@ -54,11 +54,12 @@ func (r *rec) ReportError(error) {
 	r.mu.Unlock()
 }
 
-// contract c (0..7): api version v = c%4 (descriptor bytes differ by the salt; versions >= 2 also list a second service),
+// contract c (0..7): v = c%4: the api file's bytes are salted with v%2, and v >= 2 also lists a second service - so that a change of
+// the service list alone (0 <-> 2, 1 <-> 3), of the file alone (0 <-> 1) and of both are all reachable;
 // dependency version d = c/4 (only dep.proto differs)
 func setContract(s *vrefl.Server, c int) int {
 	v, d := c%4, c/4
-	api := vrefl.File{Name: "api.proto", Package: "pkg", Deps: []string{"dep.proto"}, Messages: []string{"Req", "Resp"}, Salt: fmt.Sprintf("V%d", v%2*0+v),
+	api := vrefl.File{Name: "api.proto", Package: "pkg", Deps: []string{"dep.proto"}, Messages: []string{"Req", "Resp"}, Salt: fmt.Sprintf("V%d", v%2),
 		Services: []vrefl.Service{{Name: "A", Methods: []vrefl.Method{{Name: "Get", In: "pkg.Req", Out: "pkg.Resp"}}}, {Name: "B", Methods: []vrefl.Method{{Name: "Do", In: "pkg.Req", Out: "pkg.Resp", SS: true}}}}}
 	dep := vrefl.File{Name: "dep.proto", Package: "dep", Messages: []string{"D"}, Salt: fmt.Sprintf("D%d", d)}
 	s.Files = map[string]vrefl.File{"api.proto": api, "dep.proto": dep}
@@ -68,7 +69,7 @@ func setContract(s *vrefl.Server, c int) int {
 		s.Listed = append(s.Listed, "pkg.B")
 		n = 2
 	}
-	return (v+10*d)*10 + n
+	return (v%2+10*d)*10 + n
 }
 
 func waitStreams(s *vrefl.Server, want int) bool {
@@ -97,8 +98,22 @@ func seqPart(w *vc.Writer, r *vc.Rand) {
 			v1, alpha bool
 			fail      bool
 			contract  int
+			late      bool // the failure strikes after the service list was received
 		}
+		var pending *pcfg
 		next := func() pcfg {
+			if pending != nil {
+				p := *pending
+				pending = nil
+				return p
+			}
+			if rr.Chance(12) {
+				// a change of the service list (or of an imported file) alone, seen by a poll that fails AFTER the list was
+				// received, followed by a successful poll of the very same contract: the update must still arrive
+				cur ^= []int{2, 2, 4}[rr.Intn(3)]
+				pending = &pcfg{v1: true, alpha: true, contract: cur}
+				return pcfg{v1: true, alpha: true, fail: true, late: true, contract: cur}
+			}
 			p := pcfg{v1: true, alpha: true}
 			switch rr.Intn(10) {
 			case 0:
@@ -112,6 +127,8 @@ func seqPart(w *vc.Writer, r *vc.Rand) {
 				cur = rr.Intn(8)
 			} else if rr.Chance(15) {
 				cur ^= 4 // only the dependency changes
+			} else if rr.Chance(20) {
+				cur ^= 2 // only the service list changes
 			}
 			p.fail = rr.Chance(25)
 			p.contract = cur
@@ -122,9 +139,12 @@ func seqPart(w *vc.Writer, r *vc.Rand) {
 			srv.V1, srv.Alpha = p.v1, p.alpha
 			srv.FailStep, srv.Hang = -1, false
 			if p.fail {
-				srv.FailStep = rr.Intn(3) // 0 stream open, 1 ListServices, 2 first FileContainingSymbol: steps every poll reaches
+				srv.FailStep = []int{0, 1, 2, 2}[rr.Intn(4)] // 0 stream open, 1 ListServices, 2 first FileContainingSymbol: steps every poll reaches
 				srv.FailCode = []codes.Code{codes.Internal, codes.Unavailable, codes.PermissionDenied}[rr.Intn(3)]
 				srv.Hang = rr.Chance(20)
+				if p.late {
+					srv.FailStep, srv.Hang = 2, false
+				}
 			}
 			id := setContract(srv, p.contract)
 			srv.Mu.Unlock()
@@ -211,7 +231,7 @@ func racePart(w *vc.Writer, r *vc.Rand) {
 		if kind == 0 {
 			// the contract changes again while poll 2 is in flight, and a resolve-now request is issued after the change
 			srv.Mu.Lock()
-			setContract(srv, 3)
+			want := setContract(srv, 3)
 			srv.Mu.Unlock()
 			res.ResolveNow()
 			for j := 0; j < 1000; j++ {
@@ -223,7 +243,7 @@ func racePart(w *vc.Writer, r *vc.Rand) {
 			watcher.mu.Lock()
 			lastCb := watcher.cbs[len(watcher.cbs)-1]
 			watcher.mu.Unlock()
-			if vc.Enc(lastCb) != vc.Enc(vc.L{32}) {
+			if vc.Enc(lastCb) != vc.Enc(vc.L{want}) {
 				ok = false
 			}
 			res.Close()
